@@ -24,6 +24,11 @@ type RTCase struct {
 	IP    []byte `json:"ip"`    // 4 or 16 bytes (16 may be v4-mapped)
 	Upper []bool `json:"upper"` // which letters of the canonical name are upper-cased
 	Dot   bool   `json:"dot"`   // one trailing dot
+	// BadLen, when not zero: before the round trip, IPToReversedAddr is called
+	// once with a net.IP of BadLen-1 bytes (not an address: neither 4 nor 16
+	// bytes); it must report an error, and the rejected call must leave
+	// nothing behind that changes later results.
+	BadLen int `json:"bad_len,omitempty"`
 }
 
 func respell(canon string, upper []bool, dot bool) string {
@@ -50,6 +55,18 @@ func checkRT(c RTCase) error {
 		return fmt.Errorf("harness: bad address length %d", len(c.IP))
 	}
 	want := model.CanonARPA(a)
+	if c.BadLen > 0 && c.BadLen-1 != 4 && c.BadLen-1 != 16 {
+		bad := make(net.IP, c.BadLen-1)
+		for i := range bad {
+			bad[i] = byte(7 * (i + 1))
+		}
+		if c.BadLen == 1 {
+			bad = nil
+		}
+		if name, err := netutil.IPToReversedAddr(bad); err == nil {
+			return fmt.Errorf("IPToReversedAddr(%d bytes: %v) = %q without an error; only 4- and 16-byte values are addresses", len(bad), []byte(bad), name)
+		}
+	}
 	got, err := netutil.IPToReversedAddr(ip)
 	if err != nil {
 		return fmt.Errorf("IPToReversedAddr(%v) failed: %v", ip, err)
@@ -84,12 +101,16 @@ var rtProp = vp.Register(vp.Prop[RTCase]{
 			ip = a[:]
 		}
 		return RTCase{
-			IP:    ip,
-			Upper: rapid.SliceOfN(rapid.Bool(), 0, 40).Draw(t, "upper"),
-			Dot:   rapid.Bool().Draw(t, "dot"),
+			IP:     ip,
+			Upper:  rapid.SliceOfN(rapid.Bool(), 0, 40).Draw(t, "upper"),
+			Dot:    rapid.Bool().Draw(t, "dot"),
+			BadLen: rapid.SampledFrom([]int{0, 0, 0, 1, 2, 4, 6, 13, 16, 18, 33}).Draw(t, "badlen"),
 		}
 	},
 	Check: func(c RTCase) error {
+		if c.BadLen > 0 {
+			vp.Class("rt:after-a-rejected-call")
+		}
 		vp.NonTrivialStr("c04.roundtrip", string(c.IP), fmt.Sprint(c.Upper, c.Dot))
 		switch {
 		case len(c.IP) == 4:
